@@ -9,5 +9,5 @@ lake build MitmVerif 2>&1 | tail -3
 exes=$(grep -o 'name = "mv_[a-z0-9]*"' lakefile.toml | sed 's/name = "\(.*\)"/\1/')
 [ -n "$exes" ] && lake build $exes 2>&1 | tail -3
 # sanity of the sans-io world against the real asyncio server (informational; never fails the setup)
-/venv/bin/python /verif/harness/selftest_world.py 150 1 2>/dev/null | tail -1 || true
+/venv/bin/python ../harness/selftest_world.py 150 1 2>/dev/null | tail -1 || true
 echo "setup ok"
